@@ -34,16 +34,19 @@ EPS = 2.0 ** -10
 
 def tasks(tier):
   out = [dict(ob='S0')]
-  for n, p in ((2, 1), (2, 2), (2, 4)) if tier == 'quick' else ((2, 1), (2, 2), (2, 3), (2, 4), (3, 2), (3, 1)):
+  for n, p in ((2, 1), (2, 2), (2, 3), (2, 4), (2, 6)) if tier == 'quick' else ((2, 1), (2, 2), (2, 3), (2, 4), (2, 5), (2, 6), (2, 7), (2, 8), (3, 2), (3, 3), (3, 1)):
     out.append(dict(ob='S1', n=n, p=p, pad=0))
   out.append(dict(ob='S1', n=3, p=2, pad=1))
-  for n, p in ((2, 2), (2, 4)) if tier == 'quick' else ((2, 2), (2, 3), (2, 4), (3, 2)):
+  for n, p in ((2, 2), (2, 3), (2, 4)) if tier == 'quick' else ((2, 2), (2, 3), (2, 4), (2, 6), (3, 2)):
     out.append(dict(ob='S1b', n=n, p=p))
   out.append(dict(ob='S2', n=2, p=2))
   out.append(dict(ob='S3', n=2, p=2))
   if tier == 'thorough':
     out += [dict(ob='S3', n=2, p=4), dict(ob='S3sym', n=3, p=2)]
   out.append(dict(ob='S3sym', n=2, p=4))
+  out.append(dict(ob='S3pad', n=3, p=2, pad=1))
+  if tier == 'thorough':
+    out.append(dict(ob='S3pad', n=3, p=4, pad=1))
   out.append(dict(ob='S4', n=2))
   out.append(dict(ob='S5'))
   return out
@@ -280,6 +283,56 @@ def work(t):
               pre, timeout_s=60, kind='stretch')
       P.equal(f'{tag}|X symmetric', X, X.T, pre)
       P.reach(f'{tag}|twin', pre, [tt != 0])
+  elif ob == 'S3pad':
+    # eigh variant on a zero-padded matrix: witnessed decomposition of blockdiag(U diag(w) U^T, 0)
+    n, p, pad = t['n'], t['p'], t['pad']
+    k = n - pad
+    tag = f'S3pad|n={n}|p={p}|pad={pad}'
+    fn = lambda m: ds.matrix_inverse_pth_root(m, p, ridge_epsilon=EPS, relative_matrix_epsilon=False, padding_start=k, eigh=True)
+    jp = jax.make_jaxpr(fn)(jnp.eye(n, dtype=jnp.float32))
+    ctx = Ctx()
+    I = Interp(ctx)
+    ridge = R.s_mul(f32(EPS), R.s_max(Fraction(1), f32(1e-6)))
+    tt, w1, w2 = z3.Reals('t w1 w2')
+    den = 1 + tt * tt
+    U2 = np.array([[(1 - tt * tt) / den, -2 * tt / den], [2 * tt / den, (1 - tt * tt) / den]], dtype=object)
+    R2 = mm(mm(U2, np.array([[w1, 0], [0, w2]], dtype=object)), U2.T)
+    Rg = arr((n, n), Fraction(0))
+    Rg[:2, :2] = R2
+    A = arr((n, n), Fraction(0))
+    for i in range(2):
+      for j in range(2):
+        A[i, j] = R.s_sub(R2[i, j], ridge if i == j else Fraction(0))
+    # ascending eigenvalues: the padding eigenvalue 0 first (w1, w2 >= ridge > 0)
+    w = np.array([Fraction(0), w1, w2], dtype=object)
+    V = arr((n, n), Fraction(0))
+    V[2, 0] = Fraction(1)
+    V[:2, 1] = U2[:, 0]
+    V[:2, 2] = U2[:, 1]
+    side = Prover(timeout_s=60, fresh=True)
+
+    def witness(kind, a):
+      if kind != 'eigh':
+        return None
+      r = side.equal(f'{tag}|side: the matrix handed to eigh is blockdiag(U diag(w) U^T, 0)', a, Rg)
+      return (w, V) if r.ok else None
+    ctx.witness = witness
+    X = toobj(I.eval(jp.jaxpr, jp.consts, A)[0])
+    P.results += side.results
+    pre = [w1 >= zl(ridge), w2 >= w1]
+    pads = [X[i, j] for i in range(n) for j in range(n) if i >= k or j >= k]
+    P.equal(f'{tag}|X is exactly zero on padding rows and columns', np.array(pads, dtype=object), np.array([Fraction(0)] * len(pads), dtype=object), pre)
+    alpha = f32(-1.0 / p)
+    want = arr((k, k), Fraction(0))
+    for j, wj in ((0, w1), (1, w2)):
+      inv = I.pow(R.s_max(wj, ridge), alpha)
+      sq = I.sqrt(inv)
+      for a_ in range(k):
+        for b_ in range(k):
+          want[a_, b_] = R.s_add(want[a_, b_], R.s_mul(R.s_mul(U2[a_, j], sq), R.s_mul(U2[b_, j], sq)))
+    P.equal(f'{tag}|unpadded block of X = sum over BOTH unpadded eigenpairs of max(w, ridge)^(-1/p) u u^T', X[:k, :k], want, pre,
+            split=[w1 == 0, w2 == 0])
+    P.reach(f'{tag}|twin', pre, [tt != 0])
   elif ob == 'S4':
     n = t['n']
     tag = f'S4|n={n}'
